@@ -389,7 +389,9 @@ def s_exact(draw, tier):
     desc = draw(s_any_state())
     n = nsites(desc)
     route = draw(st.sampled_from(["partial_trace_exact", "local_expectation_exact", "local_expectation_exact",
-                                  "compute_local_expectation_exact"]))
+                                  "compute_local_expectation_exact", "grid"]))
+    if route == "grid":
+        desc["unit"] = False  # every normalized spelling x every get form only tells them apart on <psi|psi> != 1
     nterms = draw(st.integers(1, 3)) if route.startswith("compute") else 1
     return {"state": desc, "route": route, "wheres": [draw(s_where(n)) for _ in range(nterms)],
             "gseed": draw(A.seeds), "normalized": draw(st.sampled_from(NORMALIZED)),
@@ -422,6 +424,15 @@ def run_exact(case):
         raise Violation("to-dense", expo=bool(s.expo))
     cls = base_cls(s, w0) + ["route=" + route, f"normalized={normalized}"]
     info = dict(expo=bool(s.expo), route=route, nmz=str(normalized), fam=s.desc["fam"])
+    if route == "grid":
+        # the full (normalized x get) table of partial_trace_exact and the normalized column of local_expectation_exact
+        e = 0.0
+        for nz in NORMALIZED:
+            for get in ("matrix", "array", "tensor"):
+                sub = dict(case, route="partial_trace_exact", normalized=nz, get=get)
+                e = max(e, run_exact(sub)["err"])
+            e = max(e, run_exact(dict(case, route="local_expectation_exact", normalized=nz))["err"])
+        return {"nt": is_nt(s, w0), "cls": base_cls(s, w0) + ["route=grid"], "err": e}
     if route == "partial_trace_exact":
         get = case["get"]
         info["get"] = get
@@ -590,12 +601,27 @@ def eccentricity(n, edges, src):
 @st.composite
 def s_cluster(draw, tier, kind):
     """kind 'span': any graph, cluster made to contain every tensor; 'tree': tree + converged gauges, small clusters."""
-    if kind == "span":
+    forest = kind == "span" and draw(st.integers(0, 5)) == 0
+    if forest:
+        # two components (either may be a lone, bond-less site): the cluster spans iff `where` touches both
+        n1, n2 = draw(st.integers(1, 4)), draw(st.integers(1, 4))
+        e1 = draw(s_tree_edges(n1))
+        e2 = [[a + n1, b + n1] for a, b in draw(s_tree_edges(n2))]
+        desc = draw(s_graph(shape="tree", nmin=2, nmax=2))
+        desc.update(shape="forest", edges=e1 + e2, phys=fit_phys([draw(st.sampled_from([2, 2, 3])) for _ in range(n1 + n2)]),
+                    bonds=[draw(st.sampled_from([2, 3])) for _ in e1 + e2])
+        n = n1 + n2
+        wheres_k = 2
+        mode = "graphdistance"
+        gauged = False
+    elif kind == "span":
         desc = draw(s_graph())
         n = nsites(desc)
         wheres_k = 3
         mode = "loopunion" if (desc["shape"] == "biconn" and draw(st.booleans())) else "graphdistance"
         gauged = draw(st.integers(0, 2)) == 0
+    elif forest:
+        pass
     else:
         desc = draw(s_graph(shape="tree"))
         n = nsites(desc)
@@ -603,8 +629,21 @@ def s_cluster(draw, tier, kind):
         mode = "graphdistance"
         gauged = True
     route = draw(st.sampled_from(["partial_trace_cluster", "local_expectation_cluster", "local_expectation_cluster",
-                                  "compute_local_expectation_cluster"]))
+                                  "compute_local_expectation_cluster"] + (["grid"] if kind == "span" else [])))
+    if route == "grid":
+        desc["unit"] = False
+        gauged = False
     nterms = draw(st.integers(1, 3)) if route.startswith("compute") else 1
+    if forest:
+        wheres = []
+        for _ in range(nterms):
+            w = [draw(st.integers(0, n1 - 1)), draw(st.integers(n1, n - 1))]
+            wheres.append(w[::-1] if draw(st.booleans()) else w)
+        return {"state": desc, "kind": kind, "route": route, "wheres": wheres,
+                "gseed": draw(A.seeds), "mode": mode, "gauged": False, "extra": draw(st.integers(0, 2)),
+                "max_distance": 0, "fillin": 0, "normalized": draw(st.sampled_from(NORMALIZED)),
+                "get": draw(st.sampled_from(["matrix", "array", "tensor"])), "max_bond": None, "grow_from": "all",
+                "optimize": draw(st.sampled_from(["auto-hq", "greedy"])), "return_all": draw(st.booleans())}
     return {"state": desc, "kind": kind, "route": route, "wheres": [draw(s_where(n, kmax=wheres_k)) for _ in range(nterms)],
             "gseed": draw(A.seeds), "mode": mode, "gauged": gauged, "extra": draw(st.integers(0, 2)),
             "max_distance": draw(st.integers(0, 2)), "fillin": draw(st.sampled_from([0, 0, 1, True])),
@@ -614,6 +653,16 @@ def s_cluster(draw, tier, kind):
 
 
 def run_cluster(case):
+    if case["route"] == "grid":
+        # (normalized x get) table of partial_trace_cluster and the normalized column of local_expectation_cluster
+        e, out = 0.0, None
+        for nz in NORMALIZED:
+            for get in ("matrix", "array", "tensor"):
+                out = run_cluster(dict(case, route="partial_trace_cluster", normalized=nz, get=get, gauged=False))
+                e = max(e, out["err"])
+            e = max(e, run_cluster(dict(case, route="local_expectation_cluster", normalized=nz, gauged=False))["err"])
+        return {"nt": out["nt"], "cls": [c for c in out["cls"] if not c.startswith(("route=", "get=", "normalized="))] + ["route=grid"],
+                "err": e}
     qtn = Q()
     s = build_state(case["state"])
     desc = s.desc
@@ -633,14 +682,14 @@ def run_cluster(case):
     ckw = dict(max_distance=md, mode=case["mode"], fillin=case["fillin"], gauges=g)
     if case["mode"] == "loopunion":
         ckw["grow_from"] = case["grow_from"]
+    info = dict(expo=bool(s.expo), raw=normalized is not True, route=route, nmz=str(normalized), kind=kind, gauged=gauged,
+                mode=case["mode"], forest=desc["shape"] == "forest")
     if kind == "span":
         # the property only speaks about clusters that contain the whole network
         for w in case["wheres"]:
-            k = psi.get_cluster(where_sites(s, w), **{**ckw, "gauges": None})
+            k = guarded(lambda: psi.get_cluster(where_sites(s, w), **{**ckw, "gauges": None}), **info)
             if k.num_tensors != n:
                 raise Reject("cluster does not span the network")
-    info = dict(expo=bool(s.expo), raw=normalized is not True, route=route, nmz=str(normalized), kind=kind, gauged=gauged,
-                mode=case["mode"])
     cls = base_cls(s, w0) + ["route=" + route, "kind=" + kind, f"gauged={gauged}", "mode=" + case["mode"],
                              f"max_distance={md if kind == 'tree' else 'span'}", f"normalized={normalized}",
                              "shape=" + desc["shape"]]
@@ -816,7 +865,7 @@ def s_mps_local(draw, tier):
                                   "compute:canonical", "compute:canonical", "compute:envs", "compute:envs",
                                   "compute_local_expectation_canonical", "compute_local_expectation_via_envs"]))
     envs = route in ("compute:envs", "compute_local_expectation_via_envs")
-    desc = draw(s_mps(cyclic=draw(st.booleans()) if envs else False))
+    desc = draw(s_mps(Lmin=1, cyclic=draw(st.booleans()) if envs else False))
     n = desc["L"]
     nterms = draw(st.integers(1, 4)) if route.startswith("compute") else 1
     return {"state": desc, "route": route, "wheres": [draw(s_where(n)) for _ in range(nterms)], "gseed": draw(A.seeds),
@@ -841,7 +890,7 @@ def run_mps_local(case):
         info_arg = {}
         psi.canonicalize_(c, info=info_arg)  # the state is unchanged, its canonical record is tracked in info
     info = dict(expo=bool(s.expo), raw=not normalized, envs="envs" in route, route=route, nmz=str(normalized),
-                cyclic=s.desc["cyclic"], info=case["info"])
+                cyclic=s.desc["cyclic"], info=case["info"], L1=L == 1)
     cls = base_cls(s, w0) + ["route=" + route, f"normalized={normalized}", "cyclic" if s.desc["cyclic"] else "open",
                              "info=" + case["info"]]
     ckw = {} if case["optimize"] is None else {"optimize": case["optimize"]}
@@ -1177,7 +1226,11 @@ def run_peps_norm(case):
 def s_peps3d_local(draw, tier):
     desc = draw(s_peps3d(shapes=((2, 2, 2),) * 7 + ((2, 2, 3),)))
     n = nsites(desc)
-    route = draw(st.sampled_from(["partial_trace", "partial_trace", "partial_trace_cluster", "compute_local_expectation"]))
+    route = draw(st.sampled_from(["partial_trace", "partial_trace", "partial_trace_cluster", "compute_local_expectation",
+                                  "generic_local_expectation", "cluster_max_bond"]))
+    if route in ("generic_local_expectation", "cluster_max_bond"):
+        desc["Lz"] = 2  # the generic compressed contraction of the double layer is kept to 2x2x2
+        n = nsites(desc)
     nterms = draw(st.integers(1, 2)) if route.startswith("compute") else 1
     return {"state": desc, "route": route, "wheres": [draw(s_where(n)) for _ in range(nterms)], "gseed": draw(A.seeds),
             "normalized": draw(st.booleans()), "flatten": draw(st.booleans()), "symmetrized": draw(st.sampled_from(["auto", True, False])),
@@ -1210,6 +1263,16 @@ def run_peps3d_local(case):
         md = d["Lx"] + d["Ly"] + d["Lz"]
         rho = guarded(lambda: psi.partial_trace_cluster(key_of(w0), max_distance=md, fillin=case["fillin"], **kw), **info)
         e = check_rho(rho, s, w0, normalized, TOL, **info)
+    elif route in ("generic_local_expectation", "cluster_max_bond"):
+        # the inherited arbitrary-geometry methods (compressed contraction) on a PEPS3D
+        where = where_sites(s, w0)
+        G, Gm = make_op(s, w0, case["gseed"])
+        gkw = dict(max_bond=256, optimize="greedy", cutoff=0.0, normalized=normalized)
+        if route == "generic_local_expectation":
+            x = guarded(lambda: psi.local_expectation(G, where, **gkw), **info)
+        else:
+            x = guarded(lambda: psi.local_expectation_cluster(G, where, max_distance=d["Lx"] + d["Ly"] + d["Lz"], **gkw), **info)
+        e = check_scalar(x, ref_expec(s, Gm, w0, normalized), np.linalg.norm(Gm) * fl, TOL, **info)
     else:
         terms, refs = {}, {}
         for t, w in enumerate(case["wheres"]):
@@ -1537,6 +1600,105 @@ def run_ptr_compress(case):
                                                         f"gap={sysb[0] - sysa[-1] - 1}"], "err": max(e, eh, et)}
 
 
+# ---------------------------------------------------------------------------
+# 14. 1D: one `info` dict threaded through several calls on the same MPS object
+# ---------------------------------------------------------------------------
+
+INFO_OPS = ["partial_trace_to_dense_canonical", "local_expectation_canonical", "compute:canonical", "compute:canonical",
+            "compute_local_expectation_canonical", "compute:envs", "canonicalize", "magnetization", "exact"]
+
+
+@st.composite
+def s_mps_info(draw, tier):
+    desc = draw(s_mps(Lmin=3, Lmax=6, cyclic=False))
+    desc["unit"] = draw(st.integers(0, 3)) == 0
+    n = desc["L"]
+    nsteps = draw(st.integers(2, 4))
+    steps = []
+    for _ in range(nsteps):
+        op = draw(st.sampled_from(INFO_OPS))
+        nterms = draw(st.integers(1, 3)) if op.startswith("compute") else 1
+        steps.append({"op": op, "wheres": [draw(s_where(n, kmax=2)) for _ in range(nterms)], "gseed": draw(A.seeds),
+                      "normalized": draw(st.booleans()), "inplace": draw(st.integers(0, 3)) == 0,
+                      "return_all": draw(st.booleans()), "use_info": draw(st.integers(0, 5)) > 0,
+                      "direction": draw(st.sampled_from(["X", "Y", "Z"]))})
+    return {"state": desc, "steps": steps, "start": draw(st.sampled_from(["empty", "calc", "precanonized"])),
+            "center": draw(st.integers(0, 5))}
+
+
+def run_mps_info(case):
+    import quimb as qu
+
+    s = build_state(case["state"])
+    psi, L = s.psi, s.n
+    shared = {}
+    if case["start"] == "calc":
+        shared = {"cur_orthog": "calc"}
+    elif case["start"] == "precanonized":
+        psi.canonicalize_(case["center"] % L, info=shared)
+    e = 0.0
+    ops = []
+    for k, st_ in enumerate(case["steps"]):
+        op, normalized = st_["op"], st_["normalized"]
+        # a call that moves the orthogonality centre of the object itself must be told about the shared record,
+        # otherwise the *caller* has made it stale; only calls that work on a copy may go without it
+        moves = op in ("partial_trace_to_dense_canonical", "local_expectation_canonical", "canonicalize", "magnetization") or (
+            op in ("compute:canonical", "compute_local_expectation_canonical") and st_["inplace"])
+        info_arg = shared if (st_["use_info"] or moves) else None
+        w0 = st_["wheres"][0]
+        where = where_sites(s, w0)
+        info = dict(expo=bool(s.expo), raw=not normalized, route="info:" + op, step=k, nmz=str(normalized), inplace=st_["inplace"],
+                    prev=ops[-1] if ops else "-", threaded=info_arg is not None)
+        fl = 1.0 if normalized else s.nrm
+        if op == "partial_trace_to_dense_canonical":
+            rho = guarded(lambda: psi.partial_trace_to_dense_canonical(where, normalized=normalized, info=info_arg), **info)
+            e = max(e, check_rho(rho, s, w0, normalized, TOL, **info))
+        elif op == "local_expectation_canonical":
+            G, Gm = make_op(s, w0, st_["gseed"])
+            x = guarded(lambda: psi.local_expectation_canonical(G, where, normalized=normalized, info=info_arg), **info)
+            e = max(e, check_scalar(x, ref_expec(s, Gm, w0, normalized), np.linalg.norm(Gm) * fl, TOL, **info))
+        elif op.startswith("compute"):
+            terms, refs = {}, {}
+            for t, w in enumerate(st_["wheres"]):
+                key = where_sites(s, w)
+                if key in terms:
+                    continue
+                G, Gm = make_op(s, w, st_["gseed"] + t)
+                terms[key] = G
+                refs[key] = (ref_expec(s, Gm, w, normalized), np.linalg.norm(Gm) * fl)
+            ra = st_["return_all"]
+            if op == "compute:envs":
+                res = guarded(lambda: psi.compute_local_expectation(terms, normalized=normalized, return_all=ra, method="envs"), **info)
+            elif op == "compute:canonical":
+                res = guarded(lambda: psi.compute_local_expectation(terms, normalized=normalized, return_all=ra, method="canonical",
+                                                                    info=info_arg, inplace=st_["inplace"]), **info)
+            else:
+                res = guarded(lambda: psi.compute_local_expectation_canonical(terms, normalized=normalized, return_all=ra,
+                                                                              info=info_arg, inplace=st_["inplace"]), **info)
+            e = max(e, check_terms(res, refs, ra, TOL, **info))
+        elif op == "canonicalize":
+            guarded(lambda: psi.canonicalize_(where[0], info=info_arg), **info)
+        elif op == "magnetization":
+            i = w0[0]
+            if s.phys[i] not in (2, 3):
+                continue
+            Om = np.asarray(qu.spin_operator(st_["direction"], S=(s.phys[i] - 1) / 2))
+            x = guarded(lambda: psi.magnetization(i, st_["direction"], info=info_arg), **info)
+            e = max(e, check_scalar(x, ref_expec(s, Om, [i], False), np.linalg.norm(Om) * s.nrm, TOL, **info))
+        else:
+            G, Gm = make_op(s, w0, st_["gseed"])
+            x = guarded(lambda: psi.local_expectation_exact(G, where, normalized=normalized), **info)
+            e = max(e, check_scalar(x, ref_expec(s, Gm, w0, normalized), np.linalg.norm(Gm) * fl, TOL, **info))
+        ops.append(op)
+        # the object still denotes the same state after every step
+        d2 = denote(psi, [psi.site_ind(x) for x in s.sites]).reshape(-1)
+        ed = rel_err(d2, s.dense, floor=np.sqrt(s.nrm))
+        if not ed <= 1e-8:
+            raise Violation("state-changed", err=ed, **info)
+    return {"nt": True, "cls": ["start=" + case["start"], f"steps={len(case['steps'])}"] + ["op=" + o for o in ops] +
+            (["expo"] if s.expo else []), "err": e}
+
+
 SUBCHECKS = [
     SubCheck("ag_exact", run_exact, s_exact, examples=(150, 4000), shards=(1, 4),
              rule="partial_trace_exact (get matrix/array/tensor), local_expectation_exact (matrix / tensor operator), "
@@ -1597,4 +1759,9 @@ SUBCHECKS = [
              rule="MatrixProductState.partial_trace_compress(sysa, sysb contiguous blocks, renorm, leave_short) on open / periodic "
                   "MPS: outer labels kA kB bA bB, Hermitian, trace 1 (renorm) or <psi|psi>, spectrum == spectrum of the dense "
                   "reduced state of the two blocks (1e-7); nt: raw norm or periodic"),
+    SubCheck("mps_info_history", run_mps_info, s_mps_info, examples=(150, 4000), shards=(1, 4),
+             rule="2-4 successive calls on one (non-canonical, mostly unnormalised) open MPS object sharing one `info` dict: "
+                  "partial_trace_to_dense_canonical, local_expectation_canonical, compute_local_expectation (canonical with "
+                  "inplace False/True, envs), canonicalize_, magnetization, exact; every call must give its dense value and the "
+                  "object must keep denoting the same state; all nt"),
 ]
